@@ -249,8 +249,8 @@ def run_op4_case(case, tier, res):
     for mtype, M in builds:
         form = 2 if M.shape[0] != M.shape[1] else 1
         mats = [dict(name="ALPHA", A=M, form=form, mtype=mtype), dict(name="B2", A=M.T.copy(), form=2 if M.shape[0] != M.shape[1] else 1, mtype=mtype),
-                dict(name="ALPHA", A=-M, form=form, mtype=mtype)]
-        exp = [M, M.T.copy(), -M]
+                dict(name="ALPHA", A=-M, form=form, mtype=mtype), dict(name="AL", A=M * 2, form=form, mtype=mtype)]  # "AL" is a prefix of "ALPHA"
+        exp = [M, M.T.copy(), -M, M * 2]
         svs = string_variants(M, 5, 40 if tier != "quick" else 12) if kind != "cut" else [None]
         for endian, bit64, layout, trailer in itertools.product(("<", ">"), (False, True), ("dense", "nonbigmat", "bigmat"), ("nastran", "pyyeti")):
             if bit64 and trailer == "pyyeti":
@@ -269,7 +269,9 @@ def run_op4_case(case, tier, res):
                 msgs_all += [(dict(fmt="bin", endian=endian, bit64=bit64, layout=layout, trailer=trailer, sv=vi, mtype=mtype), m) for m in msgs]
         if kind == "cut":
             continue
-        for dchar, (numlen, perline), onep, layout in itertools.product(("E", "D"), ((16, 5), (23, 3), (24, 3), (26, 3)), (True, False),
+        # (width, values per line): the maximal fill of 80 columns and announced counts below it (the reader must
+        # follow the count announced in the matrix header, not the line width)
+        for dchar, (numlen, perline), onep, layout in itertools.product(("E", "D"), ((16, 5), (23, 3), (24, 3), (26, 3), (23, 2), (16, 4), (20, 3)), (True, False),
                                                                         ("dense", "nonbigmat", "bigmat")):
             for int16, pad in ((False, " "), (True, " "), (False, "\x00")):
                 if int16 and (dchar == "D" or not onep):
@@ -330,12 +332,17 @@ def check_op2_file(data, truth, blocks, res, tag):
             elif not (same(last[nm], exp[-1]) and same(first[nm], exp[0])):
                 msgs.append("%s: rdop2mats which=-1/0 for repeated name %s wrong" % (tag, nm))
         # named subsets
-        for sub in [[n] for n in set(mnames)]:
-            with warnings.catch_warnings():
-                warnings.simplefilter("ignore")
-                m = o.rdop2mats(names=sub)
-            if list(m.keys()) != sub:
-                msgs.append("%s: rdop2mats(names=%s) returned %s" % (tag, sub, list(m.keys())))
+        uniq = sorted(set(mnames))
+        for k in range(1, min(3, len(uniq)) + 1):
+            for sub in itertools.combinations(uniq, k):
+                sub = list(sub)
+                with warnings.catch_warnings():
+                    warnings.simplefilter("ignore")
+                    m = o.rdop2mats(names=sub)
+                if sorted(m.keys()) != sorted(sub):
+                    msgs.append("%s: rdop2mats(names=%s) returned %s (a named read must equal the filtered full read)" % (tag, sub, list(m.keys())))
+                elif not all(same(m[nm], last[nm]) for nm in sub):
+                    msgs.append("%s: rdop2mats(names=%s) returns different matrices than the full read" % (tag, sub))
         # tables: records and positions
         for i, (t, blk) in enumerate(zip(truth, blocks)):
             nxt = truth[i + 1]["start"] if i + 1 < len(truth) else t["stop"]
@@ -482,6 +489,19 @@ def run_op2(tier, res, part):
                         res.traces += 1
                         msgs_all += [(dict(part=part, endian=endian, bit64=bit64, sizes=sizes, order=[b["name"] + b["kind"][0] for b in blocks],
                                            header=header is not None, eof=eof), m) for m in msgs]
+        # names that are prefixes of one another (K / KAA / KAAX, M1 / M10): every order of the five blocks
+        for endian, bit64 in itertools.product(("<", ">"), (False, True)):
+            blks = [op2_enc.matrix_block(nm, M1 * (i + 1), 2, tid=101 + i) for i, nm in enumerate(("K", "KAA", "KAAX", "M1", "M10"))]
+            for order in itertools.permutations(range(5)):
+                if order[0] > order[1] and order[2] > order[3]:
+                    continue  # half of the orders are enough to put every name before and after every other
+                blocks = [blks[i] for i in order]
+                data, truth = op2_enc.encode(blocks, endian, bit64)
+                tag = "op2 %s %dbit prefix-names order=%s" % (endian, 64 if bit64 else 32, [b["name"] for b in blocks])
+                msgs = check_op2_file(data, truth, blocks, res, tag)
+                res.ev("op2names/%s/%d" % (endian, 64 if bit64 else 32))
+                res.traces += 1
+                msgs_all += [(dict(part=part, endian=endian, bit64=bit64, names=[b["name"] for b in blocks]), m) for m in msgs]
     return msgs_all
 
 
